@@ -63,6 +63,10 @@ mod chemistry;
 
 pub mod shim_filesystem; // really just for override_file_for_debugging_rules, but the config seems to throw it off
 pub use interface::*;
+#[cfg(feature = "verif-hooks")]
+pub use navigate::verif_nav_snapshot;
+#[cfg(feature = "verif-hooks")]
+pub use speech::{verif_loaded_files, verif_rule_hits};
 
 #[cfg(test)]
 pub fn init_logger() {
